@@ -59,14 +59,14 @@ func (b *ReaderX) Read(p []byte) error {
 	if l == 0 {
 		return nil
 	}
-	var size, err = b.reader.Read(p)
-	if err != nil {
-		return err
-	}
-	if size != l {
+	// a single reader.Read may legitimately return fewer bytes than asked for
+	// (or the last bytes together with io.EOF): keep reading until p is full.
+	var _, err = io.ReadFull(b.reader, p)
+	if err == io.ErrUnexpectedEOF {
+		//the stream ended inside p
 		return ErrByteBufferEmpty
 	}
-	return nil
+	return err
 }
 
 // ReadN read n length buffer
